@@ -733,4 +733,6 @@ pub fn c09(ctx: &Ctx) {
         };
         run_search(ctx, &s);
     }
+    // producers and consumers running concurrently (H2 schedule) when the process dies
+    super::crashconc::search_consumers(ctx, if q { 64 } else { 2_400 }, if q { 6 } else { 16 });
 }
